@@ -615,6 +615,109 @@ def r7_host_identity(ctx, fam):
         raise AnalysisError(construct + ': no path stores host_id')
 
 
+def _reach_nodes(m, f, depth=5, skip=()):
+    """(module, node) of the function f and of every module-level function /
+    class of the package it can reach by name (calls through `self.` resolve
+    in the class hierarchy) - enough to follow a decode helper"""
+    out, seen = [], set()
+    work = [(f.module, f.node, f, 0)]
+    while work:
+        mod, node, fi, d = work.pop()
+        if id(node) in seen:
+            continue
+        seen.add(id(node))
+        out.append((mod, node))
+        if d >= depth:
+            continue
+        for n in ast.walk(node):
+            if isinstance(n, ast.Name) and isinstance(n.ctx, ast.Load):
+                tgt = None
+                if n.id in mod.functions:
+                    g = mod.functions[n.id]
+                    tgt = (mod, g.node, g)
+                elif n.id in mod.classes:
+                    tgt = (mod, mod.classes[n.id].node, None)
+                elif n.id in mod.imports and ':' in mod.imports[n.id]:
+                    base, name = mod.imports[n.id].split(':')
+                    om = m.modules.get(base.lstrip('.'))
+                    if om is not None and name in om.functions:
+                        tgt = (om, om.functions[name].node,
+                               om.functions[name])
+                    elif om is not None and name in om.classes:
+                        tgt = (om, om.classes[name].node, None)
+                if tgt is not None:
+                    work.append(tgt + (d + 1,))
+            elif isinstance(n, ast.Call) and fi is not None and \
+                    isinstance(n.func, ast.Attribute) and \
+                    U(n.func.value) == 'self' and \
+                    n.func.attr not in skip:
+                kind, tg = m.resolve_call(fi, n)
+                for t in tg:
+                    work.append((t.module, t.node, t, d + 1))
+    return out
+
+
+def r8_channel_codec(ctx, fam):
+    """the bundled backends put `pickle.dumps(message)` on the channel; the
+    listener's bytes arm must accept everything that produces: the full
+    pickle decoder, not a restricted one (an Unpickler subclass that
+    overrides find_class / persistent_load refuses payloads - OrderedDict,
+    namedtuple, Enum, UUID rooms - that the issuing host has already applied
+    locally, so the cluster no longer behaves like one server)."""
+    m = ctx.model
+    P = PUBSUB[fam]
+    f = m.method(P, '_thread')
+    construct = P + '._thread'
+    enc = 0
+    for mod in m.modules.values():
+        for n in ast.walk(mod.tree):
+            if isinstance(n, ast.Call) and U(n.func) == 'pickle.dumps' and \
+                    mod.imports.get('pickle') == 'pickle':
+                enc += 1
+    if not enc:
+        ctx.info('no bundled backend publishes pickles: the codec rule has '
+                 'nothing to compare the listener with')
+        return
+    full, restricted = [], []
+    for mod, node in _reach_nodes(m, f):
+        if isinstance(node, ast.ClassDef):
+            if any(U(b).split('.')[-1] == 'Unpickler' for b in node.bases) \
+                    and any(isinstance(x, ast.FunctionDef) and x.name in (
+                        'find_class', 'persistent_load') for x in node.body):
+                restricted.append((mod, node))
+    # the listener's own decode: backends whose _listen yields raw bytes
+    # (redis, kombu) rely on it; a backend that decodes in its _listen does
+    # not stand in for it
+    for mod, node in _reach_nodes(m, f, skip=('_listen', '_publish')):
+        if isinstance(node, ast.ClassDef):
+            continue
+        for n in ast.walk(node):
+            if isinstance(n, ast.Call) and (
+                    (U(n.func) == 'pickle.loads' and
+                     mod.imports.get('pickle') == 'pickle') or
+                    (U(n.func) == 'loads' and
+                     mod.imports.get('loads') == 'pickle:loads')):
+                full.append((mod, n))
+    ctx.check(not restricted, construct, 'the listener decodes channel bytes '
+              'with the unrestricted inverse of the publishers\' '
+              'pickle.dumps (%d publishing site(s))' % enc,
+              key='restricted-unpickler', reason='the listener decodes with '
+              '%s, an Unpickler that overrides find_class/persistent_load: '
+              'messages the publishers can emit (any picklable payload, '
+              'room or sid) are refused and silently dropped by every '
+              'receiving host, while the issuing host has applied them' % (
+                  restricted[0][1].name if restricted else ''),
+              where='%s:%d' % (restricted[0][0].relpath,
+                               restricted[0][1].lineno)
+              if restricted else where(f))
+    ctx.check(bool(full) or bool(restricted), construct, 'a pickle decode is '
+              'reachable from the listener\'s bytes arm',
+              key='no-pickle-decode', reason='no pickle.loads is reachable '
+              'from the listener although %d backend site(s) publish '
+              'pickle.dumps: every message of those backends is dropped'
+              % enc, where=where(f))
+
+
 def run(ctx):
     ctx.rule('C07.R1', 'message schema agreement between publishers, '
              'listener arms and handlers', floor=30)
@@ -651,6 +754,10 @@ def run(ctx):
              'forwards the message\'s own fields', floor=20)
     for fam in SA:
         r6_token(ctx, fam)
+    ctx.rule('C07.R8', 'channel codec agreement: the listener accepts every '
+             'message the bundled publishers can serialise', floor=4)
+    for fam in SA:
+        r8_channel_codec(ctx, fam)
     ctx.assume('the channel is FIFO and delivers every message to every '
                'host (trusted backend)')
     ctx.assume('cluster == single server over all placements and delays is '
